@@ -24,6 +24,10 @@ ALPHABET = "ABCDEFGHIJKLMNOPQRSTUVWXYZ"
 
 
 def run(ctx) -> None:
+    from . import objmodel as _om
+
+    ctx.guard("C08.device-hook", _om.protocol_methods, "C08.device-hook", ("BaseWorklist",), ("__init_subclass__", "__new__", "__getattr__", "__getattribute__", "__setattr__"),
+              "the numbering a worklist class uses is decided when the class is created / looked up dynamically, not by the `_get_well_position` written in its body (a subclass gets whatever the hook installs)")
     ctx.guard("C08.formula", formulas)
     ctx.guard("C08.formula", positions_attr)
     ctx.guard("C08.device-private", device_private)
@@ -43,6 +47,10 @@ def run(ctx) -> None:
     from . import c19
 
     ctx.reuse("C08.helpers", c19.check)
+    from . import objmodel
+
+    ctx.guard("C08.id-template", objmodel.labware_model, "C08.id-template")
+    ctx.guard("C08.unknown-well", plain_tables)
     # the well ranges of a reagent distribution are positions of the same numbering (whole source column, first..last destination)
     ctx.reuse("C08.device-hook", c01.pair_distribute, "C01.pair-distribute")
     ctx.guard("C08.regex", regex_agreement)
@@ -556,6 +564,32 @@ def id_width(ctx, rule: str = "C08.id-template") -> None:
         ctx.rep.inconclusive(rule, "fixture/fixed-width-dtype", "embedded positive fixture was not detected: rule is broken")
     elif n == 0:
         ctx.rep.holds(rule, "package/no-fixed-width-string-arrays", "no array is created with a fixed-width string dtype literal (fixture with dtype='<U3' is detected)")
+
+
+def plain_tables(ctx) -> None:
+    """The ID tables of a labware are plain dicts: looking up an ID that is not a well of the labware raises KeyError. A dict
+    subclass with `__missing__` / `__getitem__` / `get` / `__contains__` of its own answers such lookups."""
+    rule = "C08.unknown-well"
+    f = ctx.prog.require_func("Labware.__init__", rule)
+    hits = []
+    n = 0
+    for st in own_walk(f.node):
+        if isinstance(st, (ast.Assign, ast.AnnAssign)) and getattr(st, "value", None) is not None:
+            tgts = st.targets if isinstance(st, ast.Assign) else [st.target]
+            if any(isinstance(t, ast.Attribute) and t.attr in ("_indices", "_positions") for t in tgts):
+                n += 1
+                v = st.value
+                if isinstance(v, ast.Call) and isinstance(v.func, ast.Name):
+                    cls = ctx.prog.class_by_name(v.func.id)
+                    if cls is not None:
+                        own = sorted(set(cls.methods) & {"__missing__", "__getitem__", "get", "__contains__", "setdefault"})
+                        if own:
+                            hits.append((st, cls, own))
+    for st, cls, own in hits:
+        ctx.rep.refuted(rule, f"{f.qualname}/table-type[{cls.name}]", f"the ID table is a `{cls.name}`, which defines {own}: an ID that is not a well of the labware is answered instead of failing with "
+                        "KeyError - operations on a non-existent well emit records", where=f.where(st))
+    if not hits:
+        ctx.rep.holds(rule, f"{f.qualname}/table-type", f"{n} table binding(s), none through a mapping class with a lookup of its own", where=f.where())
 
 
 def _ids_evaluated(ctx, rule: str, f, node, what: str) -> bool:
